@@ -1414,7 +1414,7 @@ pub fn g9_targeted(kind: Kind, level: usize, f: &mut dyn FnMut(&[u8])) {
                 }
             }
             if level >= 1 {
-                let step = if level == 1 { 13 } else { 1 };
+                let step = if level == 1 { 3 } else { 1 };
                 let mut n = 0usize;
                 for lead in 0xE0u8..=0xEF {
                     for c1 in 0x80u8..=0xBF {
